@@ -3,7 +3,8 @@
      new|nofreq TYPE R C F / par K / unk K G / cor K O / merr on|off /
      add r1 BR BC s11 port | add r2 BR BC s11 s22 p1 p2 | add th BR BC p1 p2 |
      add ln BR BC s11 s12 s21 s22 p1 p2 | add mm BR BC SR SC <cells> NMAP <ports> /
-     solve V (V = numeric verdict fed to the model's oracle) / takecal / end
+     solve V [early | wb J] (V = numeric verdict fed to the model's oracle; injected allocation failure:
+     before the write-back / at the J-th calloc of the write-back) / takecal / end
    and prints one line per operation in the format of harness/solvecount_harness.c (the fields the
    model determines).  Parsing and printing only. *)
 open MODELS
@@ -16,7 +17,7 @@ let type_of = function
   | "T16" -> T16 | "U16" -> U16 | "UE14" -> UE14 | "E12" -> E12
   | s -> failwith ("bad type " ^ s)
 
-let errno_s = function EDOM -> "EDOM" | EINVAL -> "EINVAL"
+let errno_s = function EDOM -> "EDOM" | EINVAL -> "EINVAL" | ENOMEM -> "ENOMEM"
 let out_s = function
   | Ok -> "rc=0 errno=0"
   | Err e -> "rc=-1 errno=" ^ errno_s e
@@ -87,16 +88,27 @@ let () =
         let (st, out) = add_std (get ()) a in
         state := Some st;
         Printf.printf "A %s %s\n" (out_s out) (counts st)
-      | ["solve"; v] ->
+      | "solve" :: v :: fault ->
         let st0 = get () in
         let verdict = (v = "1") in
-        let (st, out) = solve (fun _ _ _ -> verdict) st0 in
+        let af = (match fault with
+            | [] -> NoFault
+            | ["early"] -> FaultEarly
+            | ["wb"; j] -> FaultWriteback (ni j)
+            | _ -> failwith ("bad fault: " ^ text)) in
+        let (st, out) = solve (fun _ _ _ -> verdict) af st0 in
         state := Some st;
-        let path = (match solve_path st0 with PTrl -> "trl" | PSimple -> "simple" | PAuto -> "auto" | PFault -> "fault") in
-        Printf.printf "S %s cal=%d calsame=%d deficient=%d path=%s %s\n" (out_s out)
+        let path = (match solve_path st0 with PTrl -> "trl" | PSimple -> "simple" | PAuto -> "auto") in
+        let ul = unknown_list st0 in
+        let pv = String.concat "" (List.map (fun k ->
+            let v = pv_get st.st_pv k in
+            Printf.sprintf "%d:%d:%d;" (int_of_nat k) (int_of_nat v.pv_freqs) (match v.pv_gamma with Some _ -> 1 | None -> 0)) ul) in
+        let pvsame = String.concat "" (List.map (fun k ->
+            if pv_get st.st_pv k = pv_get st0.st_pv k then "1" else "0") ul) in
+        Printf.printf "S %s cal=%d calsame=%d deficient=%d path=%s trl=%d %s pv=%s pvsame=%s\n" (out_s out)
           (match st.st_cal with Some _ -> 1 | None -> 0)
           (match out with Ok -> 0 | _ -> 1)
-          (if count_deficient st0 then 1 else 0) path (counts st)
+          (if count_deficient st0 then 1 else 0) path (if is_trl st0 then 1 else 0) (counts st) pv pvsame
       | ["takecal"] ->
         let (st, out) = take_cal (get ()) in
         state := Some st;
